@@ -254,6 +254,16 @@ def check_property(prop, tier, repo, cfg, seed):
                 path = write_replay(prop, r, fail, idx)
                 violations.append((r, fail, path))
                 continue
+            # a spec clause may carry its own property tag:  <clause>,   // @props C15
+            if not fail.get("props") and fail.get("line") and r.get("assembled") and os.path.exists(r["assembled"]):
+                try:
+                    with open(r["assembled"]) as fh:
+                        lines_ = fh.read().split("\n")
+                    mt = re.search(r"@props\s+([A-Z0-9, ]+)", lines_[fail["line"] - 1])
+                    if mt:
+                        fail["props"] = [x.strip() for x in mt.group(1).split(",") if x.strip()]
+                except Exception:   # noqa
+                    pass
             props = fail.get("props") or props_for_failure(ucfg, fail.get("function"), fail.get("kind", ""))
             nfail_fns.add(fail.get("function"))
             if prop not in props:
